@@ -33,6 +33,9 @@ pub enum Op {
     /// the server application submits a Reliable packet to real client k and asks for a graceful disconnect right away
     /// (the connection stays established until the packet is acknowledged - or the peer is given up)
     ServerSendThenDisconnect { k: u8, size: u16 },
+    /// a raw peer of an older / newer release: a well-formed request with a foreign protocol version (refused; must
+    /// not occupy anything)
+    RawSynWrongVersion { addr: u8, version: u8 },
 }
 
 #[derive(Clone, Debug, Serialize, Deserialize)]
@@ -78,6 +81,7 @@ impl Check for C17 {
             1 => any::<u8>().prop_map(|k| Op::Kill { k }),
             2 => (any::<u8>(), any::<bool>(), any::<bool>()).prop_map(|(k, now_client, now_server)| Op::CrossDisconnect { k, now_client, now_server }),
             2 => (any::<u8>(), prop_oneof![5u16..200, 200u16..5000]).prop_map(|(k, size)| Op::ServerSendThenDisconnect { k, size }),
+            2 => (100u8..130, prop_oneof![Just(2u8), Just(4u8), any::<u8>()]).prop_map(|(addr, version)| Op::RawSynWrongVersion { addr, version: if version == 3 { 2 } else { version } }),
         ];
         (any::<u64>(), 1u8..7, 1u8..9, prop_oneof![2 => Just(2000u32), 2 => Just(5000u32), 3 => Just(20000u32), 1 => Just(60_000u32), 1 => Just(600_000u32)], any::<bool>(), proptest::collection::vec(op, 4..tier.pick(120, 400)), prop_oneof![1 => Just(true), 2 => Just(false)])
             .prop_map(|(seed, max_active, max_total, timeout_ms, handshake_errors, ops, check_recovery)| Case { seed, max_active, max_total, timeout_ms, handshake_errors, ops, check_recovery })
@@ -93,7 +97,7 @@ impl Check for C17 {
     }
 
     fn rule(&self) -> String {
-        "case = World with a Server whose max_active_connections is 1..6 and max_total_connections 1..8 (either may bind first), enable_handshake_errors on or off, and a generated script: real Clients started at arbitrary moments on links with latency 0..300 ms (many SYNs before any ACK: overlapping handshakes), raw peers (a few addresses that come back again and again) that send a valid SYN and never answer, answer later, or disconnect gracefully and reconnect, client / server disconnect() and disconnect_now(), a Reliable packet followed at once by a graceful disconnect() from the server side (also towards a silenced client), Server::drop, clients silenced until the server times them out, ticks of 0..25 s; optionally every established connection is then dropped, every client silenced and, after 25 s (the 20 s linger, the 22 s handshake budget of abandoned attempts), a fresh client is offered. Oracle after every server step: addresses between Connect and their terminal event (or drop) that the server still reports as active (not closing) number <= max_active_connections; addresses the server still tracks (Server::client() returns them) and whose connection has not ended number <= max_total_connections; a connection that was reported and neither ended nor dropped is still returned by Server::client(); every refusal of a compatible request is HandshakeError(ServerFull) and the real client reports Error(ServerFull); the fresh client offered after everything ended connects within 5 s. Non-trivial = more clients were offered than a limit admits and at least two handshakes overlapped. Distinct = distinct serialised case.".into()
+        "case = World with a Server whose max_active_connections is 1..6 and max_total_connections 1..8 (either may bind first), enable_handshake_errors on or off, and a generated script: real Clients started at arbitrary moments on links with latency 0..300 ms (many SYNs before any ACK: overlapping handshakes), raw peers (a few addresses that come back again and again) that send a valid SYN and never answer, raw peers whose requests carry a foreign protocol version (refused with Version; such an address must never be tracked), answer later, or disconnect gracefully and reconnect, client / server disconnect() and disconnect_now(), a Reliable packet followed at once by a graceful disconnect() from the server side (also towards a silenced client), Server::drop, clients silenced until the server times them out, ticks of 0..25 s; optionally every established connection is then dropped, every client silenced and, after 25 s (the 20 s linger, the 22 s handshake budget of abandoned attempts), a fresh client is offered. Oracle after every server step: addresses between Connect and their terminal event (or drop) that the server still reports as active (not closing) number <= max_active_connections; addresses the server still tracks (Server::client() returns them) and whose connection has not ended number <= max_total_connections; a connection that was reported and neither ended nor dropped is still returned by Server::client(); every refusal of a compatible request is HandshakeError(ServerFull) and the real client reports Error(ServerFull); the fresh client offered after everything ended connects within 5 s. Non-trivial = more clients were offered than a limit admits and at least two handshakes overlapped. Distinct = distinct serialised case.".into()
     }
 
     fn assumptions(&self) -> Vec<String> {
@@ -122,6 +126,8 @@ impl Check for C17 {
         let mut admitted: HashSet<SocketAddr> = HashSet::new();
         // silenced clients (Kill): the time of the server step that last read a datagram from each address
         let mut killed: HashSet<SocketAddr> = HashSet::new();
+        // addresses that only ever sent requests with a foreign protocol version
+        let mut refused_version: HashSet<SocketAddr> = HashSet::new();
         let mut last_rx_step: HashMap<SocketAddr, u64> = HashMap::new();
         let mut seen_delivered = 0usize;
 
@@ -175,6 +181,11 @@ impl Check for C17 {
                                 }
                             }
                         }
+                        Some(Frame::HandshakeErrorFrame(f)) if refused_version.contains(&r.to) => {
+                            if f.error != HandshakeErrorType::Version {
+                                return CaseResult::fail("oracle:c17:wrong_refusal", format!("a request with a foreign protocol version from {} was refused with {:?}", r.to, f.error));
+                            }
+                        }
                         Some(Frame::HandshakeErrorFrame(f)) => {
                             if f.error != HandshakeErrorType::ServerFull {
                                 return CaseResult::fail("oracle:c17:wrong_refusal", format!("a compatible connection request from {} was refused with {:?}", r.to, f.error));
@@ -217,6 +228,13 @@ impl Check for C17 {
                             }
                         }
                     }
+                }
+                // a refused request occupies nothing
+                if let Some(a) = refused_version.iter().find(|a| w.server_has_client(a)) {
+                    return CaseResult::fail(
+                        "oracle:c17:refused_request_is_tracked",
+                        format!("at t={} us the server tracks a connection for {a}, whose only requests carried a foreign protocol version and were refused (enable_handshake_errors = {}): refused handshakes count against max_total_connections {}", w.now_us, c.handshake_errors, c.max_total),
+                    );
                 }
                 let tracked = all_addrs.iter().filter(|a| w.server_has_client(a) && !m.ended.contains(*a)).count();
                 if tracked > c.max_total as usize {
@@ -344,6 +362,17 @@ impl Check for C17 {
                             }
                         }
                     }
+                }
+                Op::RawSynWrongVersion { addr, version } => {
+                    // (addresses of their own: nothing else ever comes from them)
+                    let a = raw_addr(*addr as u32);
+                    if !all_addrs.contains(&a) {
+                        all_addrs.push(a);
+                    }
+                    refused_version.insert(a);
+                    let syn = Frame::HandshakeSynFrame(HandshakeSynFrame { version: *version, nonce: 9000 + *addr as u32, max_receive_rate: 1_000_000, max_packet_size: 1000, max_receive_alloc: 1_000_000 }).write();
+                    w.send_raw(a, w.server_addr, &syn, 0);
+                    classes.push("request_with_foreign_protocol_version");
                 }
                 Op::ServerSendThenDisconnect { k, size } => {
                     if !real.is_empty() {
